@@ -233,7 +233,7 @@ func run(c *mon.Ctx) {
 	c.Floor("packet.adaptation_field_length_0", 200)
 	c.Floor("aligned_pusi.true", 500)
 	c.Floor("aligned_pusi.false", 500)
-	per := c.N(40, 60000)
+	per := c.N(40, 300000)
 	c.Exhaustive("all 256 stream ids x 3 PTS_DTS_flags values", 768)
 	c.Stream("by-stream-id", 256, func(sid int, r *gen.Rand) {
 		for k := 0; k < per; k++ {
@@ -250,7 +250,7 @@ func run(c *mon.Ctx) {
 		}
 	})
 	// short payloads: 0..5 bytes with a start-code prefix as far as it fits
-	c.Stream("short-payloads", c.N(3000, 3000000), func(i int, r *gen.Rand) {
+	c.Stream("short-payloads", c.N(3000, 10000000), func(i int, r *gen.Rand) {
 		n := r.Intn(6)
 		pay := []byte{0, 0, 1, byte(r.Intn(256)), byte(r.Intn(256))}[:min(n, 5)]
 		if n > len(pay) {
